@@ -6,6 +6,20 @@ HERE = os.path.dirname(os.path.dirname(os.path.abspath(__file__)))
 
 # id -> (category, technique, text, note)
 CLAIMED = {
+ "C10": ("other", "structural check of the shared correction workflow + interprocedural alias/effect summaries of every correct_array + inactive-flag short-circuit lint (ast, CFG reaching definitions)",
+         "Decides for every correction class and input kind: the shared __call__ implements copy vs overwrite for arrays and images and is "
+         "not overridden; no correction can write through to a non-overwritten input (a view handed to correct_array AND an effect "
+         "summary that mutates the array parameter are both needed); series are corrected slice by slice on the right axis and re-stacked "
+         "on the time axis; every correction that stores an `active` flag short-circuits on it without touching other state; "
+         "construction-time corrections run in order, in place. Not decided: pixel equality with the raw-array result, neutral-parameter numerics.",
+         "Trusted: python ast parser; sa/effects.py (may-alias, flow-sensitive for locals, external libraries by a frozen table of views/copies/mutators)."),
+ "C17": ("other", "interprocedural alias-and-mutation (effect) summaries over a registry of ~70 call forms, shared-metadata in-place-write lint, global-RNG who-may-call rule, type-tag folding of the scalar guard (ast, CFG)",
+         "Decides for every input and call chain: none of the registry forms documented to return a new object has a mutation event rooted at "
+         "a protected argument (under resolved callee summaries, with keyword-dependent forms specialised); no in-place write into "
+         "dimensions/date/time lists that derived images share; no call re-seeds the global RNG; the scalar guard of multiplication "
+         "accepts every documented type; each operator applies its own operation to both operands' data. "
+         "Not decided: element-wise numerical agreement with raw-array arithmetic.",
+         "Trusted: python ast parser; sa/effects.py as above; effects on objects reached only through **kwargs values are reported at the callee (Image.__init__) and not propagated to callers."),
  "C09": ("other", "matrix-word normal forms of the stored forward/inverse rotation pairs and of call_array/inverse_array (substitution + cancellation), table-backed sign elimination, stage-chain and mask provenance of the pull-back warp (ast)",
          "Decides in exact algebra, for every parameter choice and number of rotation factors: each separately stored inverse rotation is "
          "the inverse of the forward one (negated generators, mirrored accumulation side, identity start), inverse_array(call_array(X)) "
